@@ -4,8 +4,13 @@ import LunarVerif.Model.C02Mixed
 /-! Driver for C02: `lvdriver_c02 run` (model outputs) / `lvdriver_c02 judge` (Spec on impl outputs). -/
 open LunarVerif LunarVerif.Proto LunarVerif.C02
 
-/-- `request_expiration_sec` → ns, plus `timeDeltaForDeadRequestDecision` (10 ms). -/
-def expNs (sec : Nat) : Nat := sec * 1000000000 + 10000000
+/-- `<sec>` configured, `-` left out (the default applies) -/
+def parseSec (w : String) : Option (Option Nat) :=
+  if w == "-" then some none else
+  match w.toNat? with
+  | some 0 => none
+  | some n => some (some n)
+  | none => none
 
 def parseParent (n : Nat) (par : String) : Option (Option Nat) :=
   if par == "-" then some none else
@@ -22,10 +27,9 @@ def parseQuota (n : Nat) (w : String) : Option QCfg :=
     pure ⟨.fixed, 0, 0, p, .any⟩
   | ["c", mx, ex, par] => do
     let mx ← mx.toNat?
-    let ex ← ex.toNat?
-    if ex == 0 then none
+    let ex ← parseSec ex
     let p ← parseParent n par
-    pure ⟨.conc, mx, expNs ex, p, .any⟩
+    pure (QCfg.ofConfig mx ex p)
   | _ => none
 
 def parseFlt (w : Option String) : Option Flt :=
@@ -51,12 +55,12 @@ def parseOrder (w : String) (n : Nat) : Option (List Nat) :=
 
 def parseCfg (ws : List String) : Option Cfg := do
   let t0 ← kvNat ws "t0"
-  let gc ← kvNat ws "gc"
+  let gc ← (kv ws "gc").bind parseSec
   let early ← kvNat ws "early"
   let qs ← parseQuotas ws #[]
   let order ← (kv ws "order").bind (parseOrder · qs.length)
-  if gc == 0 || qs.isEmpty then none
-  let cfg : Cfg := ⟨qs, order, early != 0, t0, gc * 1000000000⟩
+  if qs.isEmpty then none
+  let cfg : Cfg := ⟨qs, order, early != 0, t0, gcInterval (gc.getD 0)⟩
   -- `wf` configurations are the theorems' scope; mixed trees run on the extension model only
   if cfg.wf || Mixed.okCfg cfg then pure cfg else none
 
